@@ -87,6 +87,12 @@ claim('C07', 'recording post-conditions on sparse.solve / analysis.static (all b
       'further executions; every observed solve call is judged by backward error on active amplitudes and zeros on null ones; linear dependence on the loads.',
       'Panel.uvw kernels (judged by C11); static clauses apply to non-singular K (restrained panels / SPD random systems)', '4/C07')
 
+claim('C12', 'reference-model monitor on PanelAssembly.get_k0_conn and the fkC* kernels: entry-wise comparison with quadrature of the interface mismatch energy built from each panel\'s recovered fields; convention-free consequences on real executions',
+      'For all five connection kinds, interface positions at edges and in the interior, unequal panels (size, orders, laminates, flags), p1 before/after p2 with unrelated panels in between, the returned matrix is compared entry-wise '
+      'with kt*sum w Jt^T Jt + kr*sum w Jr^T Jr (J = jump of the recovered displacement / slope fields); symmetry, PSD, locality, zero energy for common rigid translations of unrestrained panels, proportionality to (kt,kr) over ten decades, '
+      'and symmetry / degree-1 homogeneity of calc_kt_kr.',
+      'jump conventions as documented in connections/__init__.py (listed in the evidence assumptions); Panel.uvw kernels (C11)', '4/C12')
+
 ALL = ['C%02d' % i for i in range(1, 21)]
 PENDING_REASON = 'check not built yet in this round (runtime-monitoring plan in DESIGN.md section 4); will be claimed once its monitor runs silent on the unchanged tree'
 
